@@ -1,7 +1,7 @@
 PROP = dict(
   units=['gca', 'fsca', 'cwsd'],
   level='other',
-  obligations=['gca.fls.spec', 'gca.get_entry.in_bounds', 'gca.get_entry.injective', 'gca.put_get.roundtrip', 'gca.grow.preserves', 'gca.grow.capacity_doubled', 'gca.can_grow.spec', 'gca.get.current_capacity', 'gca.sync.capacity_publish',
+  obligations=['gca.fls.spec', 'gca.get_entry.in_bounds', 'gca.get_entry.injective', 'gca.put_get.roundtrip', 'gca.grow.preserves', 'gca.grow.capacity_doubled', 'gca.grow.alloc_failure_safe', 'gca.can_grow.spec', 'gca.get.current_capacity', 'gca.sync.capacity_publish',
                'fsca.index.in_bounds', 'fsca.put_get.roundtrip', 'fsca.can_grow.never', 'cwsd.size.spec',
                'cwsd.push.appends', 'cwsd.pop.newest', 'cwsd.steal.oldest', 'cwsd.steal.commit', 'cwsd.pop.last_item', 'cwsd.pop.restores_bottom', 'cwsd.sync.seq_cst'],
   explanation='Per-function contracts on the text extracted from /repo, discharged by cbmc for all inputs (loop in grow cut by an inductive invariant: unbounded). '
